@@ -7,8 +7,9 @@
 (*          holds (rounded to the logging unit; in 1/mpf of it),           *)
 (*   naxes  number of non-zero components of the interface normal,         *)
 (*   calls = [{kind, stage, ok, before, after}]  every update call with    *)
-(*           the rows [id, s, t1, t2, a, b] of the inlet, fluid and outlet *)
-(*           arrays before and after it;   or  crash / error.              *)
+(*           the rows [id, s, t1, t2, a, b, tag] of the inlet, fluid and   *)
+(*           outlet arrays in array order and nreal = the three            *)
+(*           num_real_particles, before and after it;  or  crash / error.  *)
 (* The verdict is the property layer of InletOutlet.tla evaluated on the   *)
 (* recorded calls: failed = HFailed(g, calls).                             *)
 (*                                                                         *)
@@ -22,7 +23,7 @@
 EXTENDS Integers, Sequences, FiniteSets, TLC, Json, IOUtils, TLCExt
 Mode == "trace"  NIn == 0  NFl == 0  NOut == 0  LinC == 1  XC == 1  LoutC == 1
 Back == 0  Fwd == 0  Rounds == 0  Stages == {}  OrderNames == {}  CopyQs == {}
-WinLo == 0  WinHi == 0  Mutant == "none"
+WinLo == 0  WinHi == 0  Mutant == "none"  Tags == {}
 VARIABLES g, st, calls, phase, cursor, round, nextid, order, stage
 INSTANCE InletOutlet
 
